@@ -1,7 +1,8 @@
 #!/bin/bash
-# usage: with_patch.sh <patch> <cmd...>  — apply patch to /repo, run cmd in /verif, undo
+# usage: with_patch.sh <patch> <cmd...>  — apply patch to $REPO, run cmd in /verif, undo
+REPO=${REPO:-/repo}; export VERIF_REPO=$REPO
 P=$(readlink -f "$1"); shift
-git -C /repo diff --quiet || { echo "/repo dirty"; exit 2; }
-git -C /repo apply "$P" || exit 2
-trap 'git -C /repo checkout -- . ; git -C /repo clean -fdq -e target' EXIT
+git -C $REPO diff --quiet || { echo "$REPO dirty"; exit 2; }
+git -C $REPO apply "$P" || exit 2
+trap 'git -C $REPO checkout -- . ; git -C $REPO clean -fdq -e target' EXIT
 cd /verif && "$@"
